@@ -326,6 +326,7 @@ type Global struct {
 	builtinMts map[int]LValue
 	tempFiles  []*os.File
 	gccount    int32
+	nresumes   int        // resumes that are currently nested
 	random     *rand.Rand // generator behind math.random, owned by this state and its threads
 }
 
